@@ -10,6 +10,7 @@ from vlib import Infra
 WORDS = {"n": "{n}", "s": "{}", "q": "{q}", "pn": "\"$(echo {+n} | tr ' ' ,)\"", "pf": "\"$(tr '\\n' , < {+f})\"", "f": "\"$(cat {f})\""}
 TEMPLATES = {"PA": ["n", "s", "q", "pn", "pf", "f"], "PB": ["n", "s", "pn"], "PC": ["q", "n", "pf"], "PD": ["n", "f"]}
 ENDLESS = ("endless", "ticking", "incrlong")
+HUNG_AFTER = 30.0      # a SIGKILLed process group that has not been reaped after this long is not going to be
 MARKER = "change-prompt(> )"
 
 
@@ -94,12 +95,13 @@ def kill_all(prev):
 
 
 # ------------------------------------------------------------------ trace analysis (driver side: when to look)
-def analyse(tr, kinds):
+def analyse(tr, kinds, now=None):
     """Where the previewer stands according to the hook trace:
        'busy'            something will still happen on its own
        'running'         the request announced last was taken, its (never-ending) command runs and has been displayed
        'finished'        the request announced last was taken, its command was reaped (or none was needed)
-       'stuck'           a request is pending but the never-ending command in flight was never signalled"""
+       'stuck'           a request is pending but the never-ending command in flight was never signalled
+       'hung'            the watcher took a signal long ago, yet the command has not been reaped"""
     enq = [e for e in tr if e["ev"] == "pv.enqueue"]
     picks = [e for e in tr if e["ev"] == "pv.pick"]
     if not enq or not picks:
@@ -112,6 +114,10 @@ def analyse(tr, kinds):
     started = any(e["ev"] == "pv.start" and e["version"] == v for e in tr)
     exited = any(e["ev"] == "pv.exit" and e["version"] == v for e in tr)
     killed = any(e["ev"] == "pv.kill" and e["version"] == v for e in tr)
+    if started and not exited and killed and now is not None:
+        seen = [e.get("_t", now) for e in tr if e["ev"] == "pv.kill" and e["version"] == v][0]
+        if now - seen > HUNG_AFTER:
+            return "hung"
     if started and not exited and not killed:
         st_seq = [e["seq"] for e in tr if e["ev"] == "pv.start" and e["version"] == v][0]
         if any(e["ev"] == "pv.signal" and e["sent"] and e["seq"] > st_seq for e in tr):
@@ -146,6 +152,7 @@ class Index:
             k = e["ev"]
             self.counts[k] = self.counts.get(k, 0) + 1
             if k.startswith("pv."):
+                e["_t"] = time.time()          # when the driver saw it (only used to give up on a hung previewer)
                 self.pv.append(e)
             elif k == "term.act" and e.get("act") == "change-prompt":
                 self.markers.append(e["seq"])
@@ -287,7 +294,7 @@ def run_session(ctx, fzf, plan):
                 markers += 1
                 post(MARKER)
                 ix.wait_marker(markers)
-                state = analyse(ix.pv, kinds)
+                state = analyse(ix.pv, kinds, time.time())
                 if state == "busy":
                     if time.time() > deadline:
                         raise Infra("session %s never became quiescent; last preview events: %s" % (
@@ -314,7 +321,7 @@ def run_session(ctx, fzf, plan):
                     pane = pane_of(s)
                 ix.update()
                 sig1 = [(e["ev"], e.get("version")) for e in ix.pv if e["ev"] != "pv.display"]
-                if sig1 != sig0 or analyse(ix.pv, kinds) != state:
+                if sig1 != sig0 or analyse(ix.pv, kinds, time.time()) != state:
                     if time.time() > deadline:
                         raise Infra("session %s keeps moving" % plan.label)
                     continue
@@ -361,12 +368,18 @@ def project(plan, texts, cmds, tr, quiet, quiet_at, exit_ev):
     tagof = {c: t for t, c in cmds.items()}
     evs = [{"ev": "begin", "sid": plan.sid, "texts": texts, "tmpls": TEMPLATES, "tag": plan.tag, "label": plan.label}]
     last_disp = None
+    during = ""                                  # the action being executed (term.act ... term.loop happen under t.mutex)
     for i, e in enumerate(tr):
         if quiet is not None and i == quiet_at:
             evs.append(quiet)
         k = e["ev"]
-        if k == "pv.enqueue":
-            evs.append({"ev": "enq", "q": e["q"], "item": e["item"], "nitems": e["nitems"], "tag": tagof.get(e["template"], "?"), "seq": e["seq"]})
+        if k == "term.act":
+            during = e.get("act", "")
+        elif k == "term.loop":
+            during = ""
+        elif k == "pv.enqueue":
+            evs.append({"ev": "enq", "q": e["q"], "item": e["item"], "nitems": e["nitems"], "tag": tagof.get(e["template"], "?"),
+                        "during": during, "seq": e["seq"]})
         elif k == "pv.signal":
             evs.append({"ev": "sig", "immediately": e["immediately"], "sent": e["sent"], "seq": e["seq"]})
         elif k == "pv.pick":
